@@ -44,5 +44,39 @@ pub fn verif_is_commit(p: &Option<Placeholder>) -> (r: bool) ensures r == is_com
 //@rewrite <<<(field.as_ref().chars().count()) .saturating_sub(UnicodeWidthStr::width(field.as_ref()))>>> => <<<verif_modifier_width(&field)>>>
 //@rewrite <<<placeholder.placeholder == Some(Placeholder::Str("commit"))>>> => <<<verif_is_commit(&placeholder.placeholder)>>>
 
+// ---- handle_blame_line: the metadata block of a line whose commit repeats the one above ----
+/// `ansi::measure_text_width`: the display width; escape sequences (also those of a hyperlink) count nothing. Uninterpreted.
+pub uninterp spec fn mtw(s: Seq<char>) -> usize;
+#[verifier::external_body]
+pub fn measure_text_width(s: &str) -> (r: usize) ensures r == mtw(s@) { unimplemented!() }
+/// `UnicodeWidthStr::width`: the width of the string as it is, escape sequences included (NOT what a terminal shows)
+pub uninterp spec fn raw_width(s: Seq<char>) -> usize;
+pub trait UnicodeWidthStr { fn width(&self) -> (r: usize); }
+impl UnicodeWidthStr for String {
+    #[verifier::external_body]
+    fn width(&self) -> (r: usize) ensures r == raw_width(self@) { unimplemented!() }
+}
+/// (R3) `" ".repeat(n)`
+pub uninterp spec fn blanks(n: usize) -> Seq<char>;
+#[verifier::external_body]
+pub fn verif_blanks(n: usize) -> (r: String) ensures r@ == blanks(n) { unimplemented!() }
+/// (R3) `previous_key.as_deref() == Some(&key)`
+#[verifier::external_body]
+pub fn verif_is_previous_key(previous_key: &Option<String>, key: &String) -> (r: bool)
+    ensures r == (*previous_key matches Some(k) && k@ == key@),
+{ unimplemented!() }
+
+//@ region src/handlers/blame.rs StateMachine::handle_blame_line
+//@sig pub fn blame_repeat_region(metadata: String, previous_key: Option<String>) -> (r: (String, String, bool))
+//@from <<<let key = formatted_blame_metadata.clone();>>>
+//@until <<<let metadata_style =>>>
+//@tail (formatted_blame_metadata, key, is_repeat)
+//@| ensures r.1@ == metadata@, r.2 == (previous_key matches Some(k) && k@ == metadata@),
+//@|     r.2 ==> r.0@ == blanks(mtw(metadata@)),  // @C17,C19:the.block.of.a.line.whose.commit.repeats.the.one.above.is.blank.and.as.wide.as.the.VISIBLE.metadata.so.a.link.in.it.does.not.shift.the.code
+//@|     !r.2 ==> r.0@ == metadata@,
+//@before <<<let key = formatted_blame_metadata.clone();>>>| let mut formatted_blame_metadata = metadata;
+//@rewrite <<<previous_key.as_deref() == Some(&key)>>> => <<<verif_is_previous_key(&previous_key, &key)>>>
+//@rewrite <<<" ".repeat(>>> => <<<verif_blanks(>>>
+
 } // verus!
 fn main() {}
